@@ -320,6 +320,11 @@ func isOrderedByIndex(plan planNode) bool {
 	if scan == nil || !scan.index.HasValue() {
 		return false
 	}
+	if scan.showDeleted {
+		// deleted documents are not read through the index, they are merged into the
+		// stream by document ID: the result is not in index order
+		return false
+	}
 
 	ok, _ := fetcher.CanBeOrderedByIndex(scan.ordering, scan.index.Value(), scan.documentMapping)
 	return ok
